@@ -16,7 +16,7 @@ func init() {
 		Explanation: "Static conformance of target coverage: (R1) engine must-call — in every command RunE and every function of package command that can reach scan.Engine.Start, every path to an accepting return passes through a call that reaches Engine.Start (zero-iteration loop paths are folded against the guards before the loop); " +
 			"(R2) chunk partition — the loop that slices Ports is the index-partition idiom (i=0; i<len; i+=c; [i:min(i+c,len)]) folded over representative (i,len) pairs, over one slice, and the engine starter receives the per-chunk copy whose Ports is that sub-slice; (R3) generator-mode table — each builder maps (no file)->range x ports, (file, no ports)->pair file, (file, ports)->address file x ports, and commands whose options carry port ranges start through the chunking starter, port-less ones through the plain one; " +
 			"(R4) re-openable sources — every scan.OpenFileFunc returns a stream created inside the call (os.Open, a reader over owned bytes), never a process-global or captured single-pass stream; (R5) one emission per iterator position with the documented size / base expressions in >=32-bit arithmetic; (R6) cross product — the inner address loop is never left early, the drained address channel is regenerated before the next port, one request per (port, address) carrying exactly that pair; " +
-			"(R7) one request per target-file line (C13.R1 re-evaluated); (R8) the iteration order is a permutation (C04 re-evaluated).",
+			"(R7) one request per target-file line (C13.R1 re-evaluated); (R8) the iteration order is a permutation (C04 re-evaluated); (R9) the scanned port list is the union of the --ports ranges and the --ports-file ranges on every option combination (folded over which of the two is given).",
 		NotDecided:  []string{"multiset equality end to end for every input (composition of the stages at run time)", "math/big arithmetic producing the intended addresses beyond the operand structure fixed by R5", "races with a target file that changes while it is re-read"},
 		Assumptions: []string{"os.Open returns an independent stream positioned at the start", "bytes.NewReader/strings.NewReader create an independent cursor over shared bytes", "net.IPMask.Size returns (ones, bits)"},
 		Run:         runC01,
@@ -32,6 +32,7 @@ func runC01(p *Prog, r *Report) {
 	r.Min("C01.R6", 5)
 	r.Min("C01.R7", 4)
 	r.Min("C01.R8", 100)
+	r.Min("C01.R9", 2)
 	E := engineReach(p)
 	checkEngineMustCall(p, r, E)
 	checkChunkPartition(p, r, E)
@@ -40,6 +41,7 @@ func runC01(p *Prog, r *Report) {
 	checkReopenable(p, r)
 	checkIteratorEmission(p, r)
 	checkCrossProduct(p, r)
+	checkPortSources(p, r)
 	// R7: file generators
 	sub := NewReport("C01", r.Tier)
 	for _, fn := range p.SrcFuncs() {
@@ -504,6 +506,18 @@ func checkChunkPartition(p *Prog, r *Report, E map[*ssa.Function]bool) {
 			if L >= 1 && L <= 4000 {
 				lens[L] = true
 			}
+		}
+	}
+	if r.Tier == "thorough" {
+		// exhaustive up to three chunks and one element
+		var maxc int64
+		for c := range consts {
+			if c > maxc && c <= 1000 {
+				maxc = c
+			}
+		}
+		for L := int64(1); L <= 3*maxc+1; L++ {
+			lens[L] = true
 		}
 	}
 	var Ls []int64
@@ -1605,4 +1619,134 @@ func checkCrossProduct(p *Prog, r *Report) {
 		}
 	}
 	r.Check(okPre, "C01.R6", FuncName(gen)+"/streams", p.Pos(gen.Pos()), "both streams are obtained and their errors returned before the producer goroutine starts", whyPre)
+}
+
+// ---- R9: the port list is the union of both port sources ----
+
+func checkPortSources(p *Prog, r *Report) {
+	const prT = "[]*" + modPath + "/pkg/scan.PortRange"
+	srcOf := func(c *ssa.Call) string {
+		f := StaticCallee(&c.Call)
+		if f == nil || f.Pkg != p.SPkg("command") || f.Signature.Results().Len() != 2 || types.TypeString(f.Signature.Results().At(0).Type(), nil) != prT || f.Signature.Params().Len() != 1 {
+			return ""
+		}
+		if types.TypeString(f.Signature.Params().At(0).Type(), nil) == "string" {
+			return "flag"
+		}
+		return "file"
+	}
+	n := 0
+	for _, fn := range p.methodsByName("command", "parseRawOptions") {
+		// does it (with helpers expanded) store the options' port list?
+		fp := PathsInl(fn)
+		stores := false
+		for _, s := range fp.Segs {
+			for _, e := range s.Events {
+				if e.Kind == EvStore {
+					if fa, ok := e.Addr.(*ssa.FieldAddr); ok && fieldName(fa.X.Type(), fa.Field) == "portRanges" {
+						stores = true
+					}
+				}
+			}
+		}
+		if !stores {
+			continue
+		}
+		n++
+		name := FuncName(fn)
+		pos := p.Pos(fn.Pos())
+		if len(fp.Headers) > 0 || fp.Truncated {
+			r.Undecided("C01.R9", name, pos, "the port options are combined without loops", "loop / too many paths in the option parser")
+			continue
+		}
+		ok, why := true, ""
+		nPaths := 0
+		for _, s := range fp.Segs {
+			if !s.Returns() || retClass(s) == retFail {
+				continue
+			}
+			cur := map[string]bool{}
+			undecided := ""
+			var eval func(v ssa.Value, d int) map[string]bool
+			eval = func(v ssa.Value, d int) map[string]bool {
+				out := map[string]bool{}
+				if d > 10 || v == nil {
+					undecided = "value too deep"
+					return out
+				}
+				v = s.Resolve(v)
+				if isNilConst(v) {
+					return out
+				}
+				switch t := v.(type) {
+				case *ssa.Extract:
+					if c, isC := t.Tuple.(*ssa.Call); isC && t.Index == 0 {
+						if k := srcOf(c); k != "" {
+							out[k] = true
+							return out
+						}
+					}
+				case *ssa.Call:
+					if bi, isB := t.Call.Value.(*ssa.Builtin); isB && bi.Name() == "append" {
+						for k := range eval(t.Call.Args[0], d+1) {
+							out[k] = true
+						}
+						for k := range eval(t.Call.Args[1], d+1) {
+							out[k] = true
+						}
+						return out
+					}
+				case *ssa.UnOp:
+					if _, f, isF := fieldLoad(t); isF && f == "portRanges" {
+						for k := range cur {
+							out[k] = true
+						}
+						return out
+					}
+				case *ssa.Slice:
+					return eval(t.X, d+1)
+				}
+				undecided = "port list built from " + s.Term(v)
+				return out
+			}
+			for _, e := range s.Events {
+				if e.Kind != EvStore {
+					continue
+				}
+				if fa, isFA := e.Addr.(*ssa.FieldAddr); isFA && fieldName(fa.X.Type(), fa.Field) == "portRanges" {
+					cur = eval(e.Val, 0)
+				}
+			}
+			if undecided != "" {
+				r.Undecided("C01.R9", name, pos, "the stored port list is built from the two port parsers and append", undecided)
+				ok = true
+				nPaths = -1000
+				break
+			}
+			fk, fe := emptinessFact(s, "rawPortRanges")
+			pk, pe := emptinessFact(s, "portFile")
+			want := map[string]bool{}
+			if fk && !fe {
+				want["flag"] = true
+			}
+			if pk && !pe {
+				want["file"] = true
+			}
+			nPaths++
+			for _, k := range []string{"flag", "file"} {
+				if want[k] && !cur[k] {
+					ok, why = false, fmt.Sprintf("with both options set as on this path (ports flag given=%v, ports file given=%v) the ranges from the %s are not in the scanned list (overwritten instead of appended)", want["flag"], want["file"], map[string]string{"flag": "--ports flag", "file": "--ports-file"}[k])
+				}
+				if !want[k] && cur[k] {
+					ok, why = false, "the port list contains a source that was not given"
+				}
+			}
+		}
+		if nPaths >= 0 {
+			r.Check(ok && nPaths >= 4, "C01.R9", name, pos, "on every option combination the scanned port list is exactly the union of the --ports ranges and the --ports-file ranges", why)
+		}
+	}
+	if n < 2 {
+		r.Viol("C01.R9", "port option parsers", "-", "both option families store their port list in parseRawOptions", fmt.Sprint(n))
+	}
 }
